@@ -85,7 +85,7 @@ def sem_vars():
         events.append((r[2], {0: t}))
     for t, u in itertools.product([ground[0], ground[1], ground[3]], repeat=2):
         events.append((r[1], {0: t, 1: u}))
-    inits = [k.app(f.app(a.app())), k.app(g.app(a.app(), b.app()))]
+    inits = [k.app(f.app(a.app())), k.app(g.app(a.app(), succ.app(b.app()))), k.app(f.app(succ.app(b.app()))), k.app(g.app(mk.app(), a.app()))]
     return semantics, events, inits
 
 
